@@ -768,7 +768,7 @@ impl Check for ManyCheck {
 }
 
 pub fn run_all(ctx: &mut Ctx, replay: Option<&Path>) {
-    ctx.rule("selection: case = (operator with parameters, population of tagged individuals with ties / duplicates by value / negative / +inf objectives scaled by 1e-6..1e6, seed, via Component::execute or Selection::select, populations below); oracle: source unchanged at depth 1, exactly one population pushed, every selected individual an exact copy of a source member (reference into the source for select), cardinality per operator, distinct members for without-repetition (by address), DE block layout, IWO counts, documented unusable inputs => Err; non-trivial = population >= 3 with a tie or duplicate and a non-zero request. pressure: fixed well-separated populations x operators x N draws: proportional_weights monotone / non-negative / normalised, frequency(better) >= frequency(worse) - 6 sqrt(N); non-trivial = >= 3 distinct ranks; distinct by case");
+    ctx.rule("selection: case = (operator with parameters, population of tagged individuals with ties / duplicates by value / negative / +inf objectives scaled by 1e-6..1e6, seed, via Component::execute or Selection::select, populations below); oracle: source unchanged at depth 1, exactly one population pushed, every selected individual an exact copy of a source member (reference into the source for select), cardinality per operator, distinct members for without-repetition (by address), DE block layout, IWO counts, documented unusable inputs => Err; sparse without-repetition requests (k of >= 8k members); one seed in four with a generator that first replays edge-value words (also one word repeated up to twelve times); non-trivial = population >= 3 with a tie or duplicate and a non-zero request. many-ranks: six operators on 1 000 - 100 000 individuals with pairwise distinct objective values (sum of the linear rank weights beyond 2^32): requested number of (distinct, for without-repetition) members, no panic, no error. pressure: fixed well-separated populations x operators x N draws: proportional_weights monotone / non-negative / normalised, frequency(better) >= frequency(worse) - 6 sqrt(N); non-trivial = >= 3 distinct ranks; distinct by case");
     ctx.assume("outside the domain (no documented behaviour): FullyRandom / rank selection / weights on an empty population, tournament size 0, IWO min > max, unevaluated individuals for fitness-based operators, objective magnitudes above 1e100");
     ctx.assume("DE selections: cardinality and block layout are asserted for populations >= 2y+1, smaller ones only for absence of panics");
     let k = SelCheck;
